@@ -240,3 +240,23 @@ CHECKS["C10"] = {
                   "seed and a wrong seed, in VerifyOnly and RecoverAndVerify; RecoverOnly returns what RecoverAndVerify returns on accepted inputs.",
     "level_note": "Held on the executed runs. Trusted: harness mutation generator.",
 }
+
+CHECKS["C11"] = {
+    "title": "Generators are distinct, deterministic and derived as specified",
+    "level": "exploration",
+    "technique": "runtime monitoring: exhaustive sweep of (bits, capacity, degree) parameter sets compared point-by-point with an independent re-derivation from the documentation; distinctness by hash set; opaque precomputed table probed through its public operation; hash-to-group inputs and table construction observed over the free-module group; concurrent construction",
+    "design_ref": "DESIGN.md section 4 C11",
+    "legs": [{"name": "ris", "shards": 16}, {"name": "fm", "shards": 16}, {"name": "threads", "shards": 4}],
+    "rule": "one case = one parameter set (bits in {1..64} x capacity in {1,2,4,8,16,32[,64,128]} x rotating degree) or one Pedersen generator set (degree 1..6) or one concurrent-construction round; "
+            "non-trivial = every generator of the set was compared with the reference derivation and entered the distinctness set, and the table was probed; distinct = distinct parameter tuples",
+    "exhaustive": {"quick": False, "thorough": True},
+    "require": {"quick": {"parameter_sets_checked": 42, "pedersen_sets_checked": 6, "points_compared_with_derivation": 15000, "table_probes": 300, "fm_constructions_observed": 42, "hash_inputs_compared": 15000, "concurrent_constructions": 20},
+                "thorough": {"parameter_sets_checked": 56, "pedersen_sets_checked": 6, "points_compared_with_derivation": 60000, "table_probes": 400, "fm_constructions_observed": 56, "hash_inputs_compared": 60000, "concurrent_constructions": 150}},
+    "assumptions": COMMON_ASSUMPTIONS + ["'as specified' = the derivation written in the crate documentation and source comments at the pinned commit: SHAKE256(\"GeneratorsChain\" || 'G'/'H' || LE32(party)) in 64-byte blocks, SHA3-512(\"RISTRETTO_MASKING_BASEPOINT_k\"), value generator = Ristretto basepoint",
+                                         "thorough sweeps the whole stated space (7 bit lengths x capacities up to 128 x degrees 1..6 for the Pedersen part); racing *first* use of the cached blinding generators needs fresh processes and is exercised by C18"],
+    "level_text": "Sweeps every supported bit length against capacities up to 32 (thorough: 128) and every extension degree: each point returned by the public accessors equals an independent "
+                  "derivation from the documentation; all 2*n*c + d + 1 encodings of a set are pairwise distinct and none is the identity; compressed accessors are the encodings of the points; "
+                  "the opaque precomputed table is probed with random and unit scalar vectors against the naive interleaved sum; over the free-module group the exact hash-to-group inputs and the "
+                  "points handed to the table constructor are observed; construction is repeated, reordered and run on 2..16 threads.",
+    "level_note": "The space is finite; the thorough tier enumerates it completely for the stated bounds. Trusted: refbp derivation, sha3, dalek hash-to-group.",
+}
